@@ -7,9 +7,43 @@ import core
 from core import cz, cb
 
 
+def periodic_run(xs, P, minlen):
+    """(a, b): the longest stretch xs[a:b] that has period P, if at least minlen long."""
+    best, a = (0, 0), None
+    n = len(xs)
+    for i in range(n - P + 1):
+        if i + P < n and xs[i] == xs[i + P]:
+            if a is None:
+                a = i
+        else:
+            if a is not None and i + P - a > best[1] - best[0]:
+                best = (a, i + P)
+            a = None
+    if best[1] - best[0] >= minlen:
+        return best
+    return None
+
+
+def cperiodic(xs, P, lit):
+    """prefix ++ concat (repeat block k) ++ suffix for a list with a long periodic stretch (many CIGAR operations);
+    lit renders a short list. None when there is no such stretch."""
+    if len(xs) < 64 * P:
+        return None
+    r = periodic_run(xs, P, 32 * P)
+    if not r:
+        return None
+    a, b = r
+    k = (b - a) // P
+    return '(%s ++ concat (repeat %s %d%%nat) ++ %s)' % (lit(xs[:a]), lit(xs[a:a + P]), k, lit(xs[a + k * P:]))
+
+
 def cbytes(xs):
     """Byte string as concat [l16 x.. ...; ...; [rest]] (see coq/Model/BamBytes.v)."""
     xs = list(xs)
+    if len(xs) >= 8192 and all(0 <= x < 256 for x in xs):
+        c = cperiodic(xs, 32, cbytes)
+        if c:
+            return c
     if len(xs) < 16 or any(not (0 <= x < 256) for x in xs):
         return clist(xs)
     parts = ['l16 ' + ' '.join('x%02x' % x for x in xs[i:i + 16]) for i in range(0, len(xs) - 15, 16)]
@@ -409,11 +443,14 @@ def gen_cases(rng, tier):
     cases.append(rt_case(rng, [gen_record(rng, 1), big, gen_record(rng, 1)], gen_refs(rng, 1), wc=[1, 4], reads=[(1, 0), (2, 2), (3, 1)], fam='big-record'))
     many = [gen_record(rng, 2, L=rng.randint(20, 60), naux=rng.choice([0, 1, 2]), small_pos=True) for _ in range(700 if quick else 3000)]
     cases.append(rt_case(rng, many, gen_refs(rng, 2), wc=[2, 1], reads=[(1, 0), (4, 1)], fam='many-records'))
-    cg = gen_record(rng, 1, L=10, naux=1, ncig=(5000 if quick else 65535))
-    cases.append(rt_case(rng, [cg, gen_record(rng, 1)], gen_refs(rng, 1), reads=[(1, 0), (1, 2)], fam='many-cigar'))
-    if not quick:
-        cg = gen_record(rng, 1, L=10, naux=1, ncig=65534)
-        cases.append(rt_case(rng, [cg], gen_refs(rng, 1), reads=[(1, 0)], fam='many-cigar'))
+    # many CIGAR operations: n_cigar_op is a uint16, the CIGAR block 4*n bytes (16384 ops = 2^16 bytes); the
+    # operations repeat a pattern of 8 so that the Coq terms can be written with repeat
+    for n in [16383, 16384, 16385, 32768, 40000, 65535] + ([] if quick else [5000, 65534, 49152]):
+        cg = gen_record(rng, 1, L=rng.choice([9, 10]), naux=rng.choice([1, 2]), ncig=0)
+        pat = gen_cigar(rng, 8)
+        cg['cigar'] = (pat * (n // 8 + 1))[:n]
+        cases.append(rt_case(rng, [gen_record(rng, 1, L=5), cg, gen_record(rng, 1, L=4)], gen_refs(rng, 1), wc=[1, 2], level=rng.choice([0, 1]),
+                             reads=[(1, 0), (2, 1), (1, 2)], fam='cigar-%d' % n))
     text = '@HD\tVN:1.5\tSO:unsorted\n' + ''.join('@CO\t%s\n' % ''.join(rng.choice('abcdefgh ') for _ in range(90)) for _ in range(760 if quick else 2000))
     cases.append(rt_case(rng, [gen_record(rng, 3) for _ in range(3)], gen_refs(rng, 3), text=text, wc=[1, 2], fam='big-header'))
     cases.append(rt_case(rng, [], gen_refs(rng, 2), fam='no-records'))
@@ -762,11 +799,16 @@ def oracle_dec(c, o):
 # ---------------------------------------------------------------------------
 # Coq terms
 
+def ccigar(xs):
+    xs = list(xs)
+    return cperiodic(xs, 8, clist) or clist(xs)
+
+
 def crec(v):
     """rec term from an in-memory view (harness c05view)."""
     q = 'None' if v['qual'] is None else '(Some %s)' % cbytes(v['qual'])
     return '(mkRec %s %s %s %s %s %s %s %s %s %s %s %s %s)' % (
-        cbytes(v['name']), cz(v['ref']), cz(v['pos']), cz(v['mapq']), clist(v['cigar']), cz(v['flags']), cz(v['mref']),
+        cbytes(v['name']), cz(v['ref']), cz(v['pos']), cz(v['mapq']), ccigar(v['cigar']), cz(v['flags']), cz(v['mref']),
         cz(v['mpos']), cz(v['tlen']), cz(v['lseq']), cbytes(v['dbl'] or []), q, clist(v['aux'] or [], cbytes))
 
 
@@ -879,6 +921,8 @@ def run(res, rng, tier):
                 res.count('record-size/' + size_class(n))
                 res.count('seq/' + ('zero' if r['L'] == 0 else 'odd' if r['L'] % 2 else 'even'))
                 res.count('qual/' + ('absent' if r['qual'] is None else 'present'))
+                nc = len(r['cigar'])
+                res.count('cigar-ops/' + ('0' if nc == 0 else '<16384' if nc < 16384 else '16384..32767' if nc < 32768 else '>=32768'))
                 for a in r['aux']:
                     res.count('aux/' + a['t'] + (a.get('sub') or ''))
                     if a['t'] == 'B' and not a['l']:
@@ -940,9 +984,9 @@ def run(res, rng, tier):
     res.extra['coq_evaluated_cases'] = len(terms)
     res.extra['coq_s'] = round(time.time() - t0, 1)
     res.extra['coq_chars'] = sum(len(t[2]) for t in terms)
-    res.rule = ('round-trip cases: typed records (names 1..254 bytes, any flags/MAPQ, 0..12 and 5000 (thorough: 65535) CIGAR ops of types 0..15 with lengths up to 2^28-1, '
+    res.rule = ('round-trip cases: typed records (names 1..254 bytes, any flags/MAPQ, 0..12 CIGAR ops of types 0..15 with lengths up to 2^28-1, '
                 'sequences of zero/odd/even length over the 16 codes and through n16Table, qualities absent/present, every aux type incl. all B subtypes and empty arrays/strings, '
-                'block sizes 4094..4098 and >64 KiB, 700 records across BGZF blocks, 70 KiB header), written at several wc/levels/flush placements and read back with rd 1..4 and the three Omit modes; '
+                'block sizes 4094..4098 and >64 KiB, 16383/16384/16385/32768/40000/65535 CIGAR ops, 700 records across BGZF blocks, 70 KiB header), written at several wc/levels/flush placements and read back with rd 1..4 and the three Omit modes; '
                 'single-record byte strings incl. malformed ones; nybble packing over all byte values. A case is distinct by its record contents; all are non-trivial.')
     pick = [x for x in zip(cases, obs) if x[0]['op'] == 'rt'][:2] + [x for x in zip(cases, obs) if x[0]['op'] == 'dec'][:1] + [x for x in zip(cases, obs) if x[0]['op'] == 'seq'][:1]
     res.samples = [dict(case=slim(strip(c), 40), observed=slim(o, 40)) for c, o in pick]
